@@ -15,6 +15,7 @@ import Rscp.Tie.Client
 #print axioms Rscp.Tie.Validate.shape_rscp_DataType_isValidValue
 #print axioms Rscp.Tie.Validate.shape_rscp_DataType_length
 #print axioms Rscp.Tie.Validate.shape_rscp_Tag_isRequest
+#print axioms Rscp.Tie.Validate.shape_rscp_var_validateMap
 #print axioms Rscp.Tie.Validate.leaf_validate_tooLong_src
 #print axioms Rscp.Tie.Validate.leaf_validate_tooLong_args
 #print axioms Rscp.Tie.Validate.leaf_validateRequests_tooLong_src
